@@ -10,7 +10,9 @@
                         call returns in the same step (nothing but the caller's own locals was
                         touched in between; enter's Add(1) and the deferred leave cancel).
                         [merr = Some (i,e)]: the metadata lookup for message i fails with e.
-     Assign c           batchMessages: ONE critical section of w.mutex; per partition
+     Assign c           batchMessages: ONE critical section of w.mutex.  If Close has marked the
+                        writer closed in the meantime: return io.ErrClosedPipe, WriteMessages
+                        returns it (leave); nothing is created or enqueued.  Otherwise per partition
                         writeMessages (ptw.mutex nested): add / full / Put, new partition
                         writers (spawn writeBatches), new batches (spawn awaitBatch).
                         The balancer's decisions are data ([m_part]).  Go iterates the
@@ -129,8 +131,7 @@ Record state := mkSt {
   s_calls : list call;                     (* ghost history of calls (id = position) *)
   s_journal : list attempt;                (* fake cluster: every produce attempt *)
   s_log : list (tpart * msg);              (* fake cluster: appended records *)
-  s_compl : list (list msg * option err);  (* ghost: Completion callbacks *)
-  s_late : bool                            (* ghost: batchMessages ran after CloseMark *)
+  s_compl : list (list msg * option err)   (* ghost: Completion callbacks *)
 }.
 
 Inductive reaction :=
@@ -337,15 +338,15 @@ Definition call_admissible (s : state) (g : N) (msgs : list msg) : bool :=
 Definition closed (s : state) : bool := match s_close s with ClOpen => false | _ => true end.
 
 Definition with_pw (s : state) (p : nat) (pw : pwriter) : state :=
-  mkSt (s_close s) (s_wg s) (upd (s_pws s) p pw) (s_calls s) (s_journal s) (s_log s) (s_compl s) (s_late s).
+  mkSt (s_close s) (s_wg s) (upd (s_pws s) p pw) (s_calls s) (s_journal s) (s_log s) (s_compl s).
 Definition with_pw_done (s : state) (p : nat) (pw : pwriter) : state :=
-  mkSt (s_close s) (pred (s_wg s)) (upd (s_pws s) p pw) (s_calls s) (s_journal s) (s_log s) (s_compl s) (s_late s).
+  mkSt (s_close s) (pred (s_wg s)) (upd (s_pws s) p pw) (s_calls s) (s_journal s) (s_log s) (s_compl s).
 Definition add_call (s : state) (wg : nat) (c : call) : state :=
-  mkSt (s_close s) wg (s_pws s) (s_calls s ++ [c]) (s_journal s) (s_log s) (s_compl s) (s_late s).
+  mkSt (s_close s) wg (s_pws s) (s_calls s ++ [c]) (s_journal s) (s_log s) (s_compl s).
 Definition ret_call (s : state) (i : nat) (c : call) (r : result) : state :=
   mkSt (s_close s) (pred (s_wg s)) (s_pws s)
        (upd (s_calls s) i (mkCall (c_g c) (c_msgs c) (c_refs c) (CReturned r)))
-       (s_journal s) (s_log s) (s_compl s) (s_late s).
+       (s_journal s) (s_log s) (s_compl s).
 
 (* what the client does with the outcome of attempt number [n] (0-based) *)
 Definition after_attempt (n : nat) (seen : option err) : sphase :=
@@ -376,10 +377,14 @@ Definition step (s : state) (l : label) : option state :=
     | Some cl =>
       match c_ph cl with
       | CEntered =>
+        (* batchMessages re-checks w.closed under w.mutex: after Close the call fails with
+           io.ErrClosedPipe, nothing is created or enqueued, and WriteMessages returns (leave) *)
+        if closed s then Some (ret_call s c cl (RErr EClosed))
+        else
         let '(pws, wg, refs) := assign_all (s_pws s) (s_wg s) (c_msgs cl) in
         Some (mkSt (s_close s) wg pws
                    (upd (s_calls s) c (mkCall (c_g cl) (c_msgs cl) refs CWaiting))
-                   (s_journal s) (s_log s) (s_compl s) (s_late s || closed s))
+                   (s_journal s) (s_log s) (s_compl s))
       | _ => None
       end
     | None => None
@@ -428,7 +433,7 @@ Definition step (s : state) (l : label) : option state :=
                    (s_calls s)
                    (s_journal s ++ [mkAtt p (b_k b) (pw_tp pw) (b_msgs b) (r_applied r) (r_seen r)])
                    (s_log s ++ (if r_applied r then map (pair (pw_tp pw)) (b_msgs b) else []))
-                   (s_compl s) (s_late s))
+                   (s_compl s))
       | _ => None
       end
     | None => None
@@ -452,7 +457,7 @@ Definition step (s : state) (l : label) : option state :=
                         (mkPw (pw_tp pw) (pw_open pw) (pw_nb pw) (pw_fin pw ++ [(b, e)]) None
                               (pw_queue pw) (pw_curr pw) (pw_alive pw) (pw_await pw)))
                    (s_calls s) (s_journal s) (s_log s)
-                   (s_compl s ++ [(b_msgs b, e)]) (s_late s))
+                   (s_compl s ++ [(b_msgs b, e)]))
       | _ => None
       end
     | None => None
@@ -483,20 +488,20 @@ Definition step (s : state) (l : label) : option state :=
   | CloseMark =>
     match s_close s with
     | ClOpen => Some (mkSt ClWaiting (s_wg s) (map close_pw (s_pws s)) (s_calls s)
-                           (s_journal s) (s_log s) (s_compl s) (s_late s))
+                           (s_journal s) (s_log s) (s_compl s))
     | _ => None
     end
   | CloseWaitDone =>
     match s_close s, s_wg s with
     | ClWaiting, O => Some (mkSt ClReturned (s_wg s) (s_pws s) (s_calls s)
-                                 (s_journal s) (s_log s) (s_compl s) (s_late s))
+                                 (s_journal s) (s_log s) (s_compl s))
     | _, _ => None
     end
   end.
 
 End WithConfig.
 
-Definition init : state := mkSt ClOpen 0 [] [] [] [] [] false.
+Definition init : state := mkSt ClOpen 0 [] [] [] [] [].
 
 (* ---- candidate non-environment steps (used by the driver's scheduler and to decide
    stuckness: a reaction-independent representative of every progress label) ---- *)
